@@ -1,5 +1,5 @@
 (* Correspondence evaluators for the solution-set checker (C01, C03, C04, C16, C06). *)
-From EB Require Export Corr.Common Check.Set Spec.GraphRef Spec.TwoPassSpec.
+From EB Require Export Corr.Common Check.Set Spec.GraphRef Spec.TwoPassSpec Check.Validate Hash.Addr Hash.Sha256.
 Open Scope list_scope.
 Open Scope Z_scope.
 
@@ -144,3 +144,30 @@ Definition post_spec_fail (c : post_case) : bool :=
 
 Definition post_mismatches := Common.collect post_mismatch.
 Definition post_spec_failures := Common.collect post_spec_fail.
+
+(* ---- C04: every permutation of a solution set ---- *)
+Record perm_case := {
+  pp_sols : list solution;                                  (* the set in its original order *)
+  pp_addrs : list (list Z);                                 (* content address of every permutation *)
+  pp_check : list bool;                                     (* check_set verdict of every permutation *)
+  pp_results : list (Z * Z * list (list (list Z)));         (* two-pass of every permutation: result code, gas, and per ORIGINAL
+                                                               solution the returned mutations (encoded, sorted) *)
+}.
+Definition all_same {A} (eqb : A -> A -> bool) (l : list A) : bool :=
+  match l with [] => true | x :: r => forallb (eqb x) r end.
+Definition perm_res_eqb (a b : Z * Z * list (list (list Z))) : bool :=
+  (* the verdict is Ok / not Ok: WHICH error of a failing set is reported first may depend on the order *)
+  match a, b with (r1, g1, m1), (r2, g2, m2) =>
+    if (r1 =? 0) || (r2 =? 0) then (r1 =? r2) && (g1 =? g2) && list_eqb zzlist_eqb m1 m2 else negb (r1 =? 4) && negb (r2 =? 4)
+  end.
+
+Definition perm_mismatch (c : perm_case) : bool :=
+  negb (match pp_addrs c with a :: _ => zlist_eqb a (set_addr sha256 (pp_sols c)) | [] => true end
+        && match pp_check c with b :: _ => Bool.eqb b (is_ok (check_set (pp_sols c))) | [] => true end).
+
+(* a solution set is a set: nothing depends on the order of the solutions *)
+Definition perm_spec_fail (c : perm_case) : bool :=
+  negb (all_same zlist_eqb (pp_addrs c) && all_same Bool.eqb (pp_check c) && all_same perm_res_eqb (pp_results c)).
+
+Definition perm_mismatches := Common.collect perm_mismatch.
+Definition perm_spec_failures := Common.collect perm_spec_fail.
